@@ -51,9 +51,6 @@ pub assume_specification [std::string::String::len] (_0: &std::string::String) -
 pub proof fn axiom_loc_key_model()
     ensures vstd::std_specs::hash::obeys_key_model::<pt::Loc>()
 {}
-pub assume_specification[ <pt::Expression as pt::CodeLocation>::loc ](e: &pt::Expression) -> (r: pt::Loc)
-    requires (match *e { pt::Expression::StringLiteral(v) => v@.len() > 0, pt::Expression::HexLiteral(v) => v@.len() > 0, _ => true })
-    ensures r == code_loc(*e);
 // Loc::start(): the one accessor of pt.rs that solstat's callers use (dropped impl, re-admitted with its contract)
 pub open spec fn loc_start(l: pt::Loc) -> int {
     match l { pt::Loc::File(_, s, _) => s as int, _ => -1 }
@@ -488,7 +485,6 @@ def build(ctx, unit_name, only=None, probe=None):
     u.raw(A.TSET_SPEC, "spec:tset")
     u.raw(C.into_spec_impls(ctx), "spec:into")
     from . import ptspec
-    u.raw(ptspec.code_loc_spec(ctx.tt), "spec:generated:code_loc")
     u.raw(STD_SPECS, "spec:std-assumed")
     u.raw(HITS_SPEC, "spec:hits")
     if getattr(tab, "GENERATED_SPEC", None) == "below_top":
